@@ -2,7 +2,6 @@ package gen
 
 import (
 	"fmt"
-	"strings"
 
 	"pgregory.net/rapid"
 	"verif.local/h/gr"
@@ -16,7 +15,8 @@ type SynOpts struct {
 	Actions    bool   // decorate alternatives with recording actions
 	Stratum    int    // 0 = mixed, 1 = families, 2 = random, 3 = with junk NTs
 	ActPkg     string // import path of the action helper ("" = verif.local/h/act)
-	TokenPkg   string // import path of the generated token package (needed for $Tn)
+	AllRec     bool   // every alternative gets a recording action
+	NoTokCast  bool   // never use $Tn
 	LongBodies bool   // dedicated stratum with bodies >= 11 symbols
 }
 
@@ -230,68 +230,65 @@ func SynGrammar(o SynOpts) *rapid.Generator[*gr.Grammar] {
 }
 
 // AddActions decorates alternatives with actions. Styles: none (default
-// action), "$i" (pass-through), a recording call h.N($Context, tag, args…), or
-// an expression list "v, nil".
+// action), pass-through "$k, nil", or a recording call h.N($Context, tag, args…).
+// allRec forces a recording call on every alternative (needed when the
+// reduction sequence itself is the observable).
 func AddActions(t *rapid.T, g *gr.Grammar, o SynOpts) {
 	actPkg := o.ActPkg
 	if actPkg == "" {
 		actPkg = "verif.local/h/act"
 	}
-	hdr := fmt.Sprintf("import h %q", actPkg)
-	if o.TokenPkg != "" {
-		hdr = fmt.Sprintf("import (\n\th %q\n\t%q\n)\nvar _ = token.INVALID", actPkg, o.TokenPkg)
-	}
-	g.Header = hdr
+	g.Header = fmt.Sprintf("import h %q\n\nvar _ = h.N", actPkg)
+	useT := false
 	pn := 0
 	for i := range g.Prods {
 		for j := range g.Prods[i].Alts {
 			pn++
 			a := &g.Prods[i].Alts[j]
-			n := len(a.Syms)
-			if a.Error {
-				n++
-			}
+			n := a.NumBody()
 			tag := fmt.Sprintf("p%d", pn)
 			style := rapid.IntRange(0, 9).Draw(t, "actStyle")
+			if o.AllRec && style < 2 {
+				style = 5
+			}
 			switch {
 			case style == 0: // default action
-				a.Action = ""
+				a.Spec, a.Action = nil, ""
+				continue
 			case style == 1 && n > 0: // pass-through of one attribute
-				k := rapid.IntRange(0, n-1).Draw(t, "passIdx")
-				a.Action = fmt.Sprintf("$%d, nil", k)
+				a.Spec = &gr.ActSpec{Style: "pass", K: rapid.IntRange(0, n-1).Draw(t, "passIdx")}
 			case style == 2: // recording call without arguments
-				a.Action = fmt.Sprintf("h.N($Context, %q)", tag)
+				a.Spec = &gr.ActSpec{Style: "rec", Tag: tag}
 			default:
-				var args []string
+				sp := &gr.ActSpec{Style: "rec", Tag: tag}
 				for k := 0; k < n; k++ {
 					if rapid.IntRange(0, 4).Draw(t, "dropArg") == 0 && n > 1 {
 						continue
 					}
 					isTerm := false
 					if a.Error {
-						if k == 0 {
-							isTerm = false // the error attribute is not a token
-						} else {
+						if k > 0 {
 							isTerm = a.Syms[k-1].Kind != gr.SNT
 						}
 					} else {
 						isTerm = a.Syms[k].Kind != gr.SNT
 					}
-					if isTerm && o.TokenPkg != "" && rapid.Bool().Draw(t, "useT") {
-						args = append(args, fmt.Sprintf("$T%d", k))
-					} else {
-						args = append(args, fmt.Sprintf("$%d", k))
+					asTok := isTerm && !o.NoTokCast && rapid.Bool().Draw(t, "useT")
+					if asTok {
+						useT = true
 					}
+					sp.Args = append(sp.Args, gr.ActArg{Idx: k, AsTok: asTok})
 				}
-				a.Action = fmt.Sprintf("h.N($Context, %q%s)", tag, prefixEach(args))
+				// occasionally repeat or reorder arguments
+				if len(sp.Args) > 1 && rapid.IntRange(0, 5).Draw(t, "shuffleArgs") == 0 {
+					sp.Args = rapid.Permutation(sp.Args).Draw(t, "argPerm")
+				}
+				a.Spec = sp
 			}
+			a.Action = a.Spec.Render()
 		}
 	}
-}
-
-func prefixEach(args []string) string {
-	if len(args) == 0 {
-		return ""
+	if useT {
+		g.Header = fmt.Sprintf("import (\n\th %q\n\t\"TOKENPKG\"\n)\n\nvar _ = h.N", actPkg)
 	}
-	return ", " + strings.Join(args, ", ")
 }
